@@ -146,20 +146,25 @@ package filesystem
 //@   ensures private-stored-encrypted: err == nil && data.Format == api.ThemisKeyPairFormat && len(data.PrivateKey) != 0 ==> called(KeyRing.encryptPrivateKey) && ret(KeyRing.encryptPrivateKey)[1] == nil && sameslice(key.Data[len(key.Data)-1].PrivateKey, ret(KeyRing.encryptPrivateKey)[0])
 //@   ensures symmetric-stored-encrypted: err == nil && data.Format == api.ThemisSymmetricKeyFormat ==> called(KeyRing.encryptSymmetricKey) && ret(KeyRing.encryptSymmetricKey)[1] == nil && sameslice(key.Data[len(key.Data)-1].SymmetricKey, ret(KeyRing.encryptSymmetricKey)[0])
 //@   ensures nothing-else: err == nil ==> data.Format == api.ThemisKeyPairFormat || data.Format == api.ThemisSymmetricKeyFormat
+//@   ensures grows-in-place-or-moves-to-new-memory: sameregion(key.Data, old(key.Data)) || fresh(key.Data)
+//@   ensures failure-keeps-data: err != nil ==> sameslice(key.Data, old(key.Data))
 //@   at call KeyRing.encryptPrivateKey : assert arg[0] == key.Seqnum && sameslice(arg[1], data.PrivateKey)
 //@   at call KeyRing.encryptSymmetricKey : assert arg[0] == key.Seqnum && sameslice(arg[1], data.SymmetricKey)
+//@   modifies key.Data, key.Data[*]
 
 //@ func (r *KeyRing) encrypt(data []byte, context []byte) (out []byte, err error)
 //@   props C02 C07
 //@   noinline keyRingContext
 //@   at call KeyStore.encrypt : assert recv == r.store && sameslice(arg[0], data) && sameslice(arg[1], ret(KeyRing.keyRingContext)[0])
 //@   at call KeyRing.keyRingContext : assert sameslice(arg[0], context)
+//@   modifies nothing
 
 //@ func (r *KeyRing) decrypt(data []byte, context []byte) (out []byte, err error)
 //@   props C02 C07
 //@   noinline keyRingContext
 //@   at call KeyStore.decrypt : assert recv == r.store && sameslice(arg[0], data) && sameslice(arg[1], ret(KeyRing.keyRingContext)[0])
 //@   at call KeyRing.keyRingContext : assert sameslice(arg[0], context)
+//@   modifies nothing
 
 //@ func (r *KeyRing) keyRingContext(context []byte) (c []byte)
 //@   props C02 C07 C14
@@ -167,6 +172,7 @@ package filesystem
 //@   ensures layout: len(c) == 9 + len(r.path) + 2 + len(context)
 //@   ensures binds-path: forall(i, 0, len(r.path), c[9 + i] == r.path[i])
 //@   ensures binds-context: forall(i, 0, len(context), c[9 + len(r.path) + 2 + i] == context[i])
+//@   modifies nothing
 
 // ---- Export / import of key rings (C18) --------------------------------------------------------------------------
 // The bundle is the notary's signature over a container whose only payload is the output of the access-key encryptor
@@ -234,7 +240,9 @@ package filesystem
 //@   ensures (err == nil) <==> (key != nil)
 //@   ensures same-identity: err == nil ==> key.Seqnum == other.Seqnum && key.State == other.State && fresh(key)
 //@   ensures rejects-empty: len(other.Data) == 0 ==> err != nil
-//@   loop 0 step data-through-addKeyData: itercalled(KeyRing.addKeyData) && ret(KeyRing.addKeyData)[0] == nil && argof(KeyRing.addKeyData)[1] == &key && sameslice(argof(KeyRing.addKeyData)[0].PrivateKey, otherKey.PrivateKey) && sameslice(argof(KeyRing.addKeyData)[0].SymmetricKey, otherKey.SymmetricKey) && sameslice(argof(KeyRing.addKeyData)[0].PublicKey, otherKey.PublicKey)
+//@   loop 0 invariant fresh(key.Data)
+//@          step data-through-addKeyData: itercalled(KeyRing.addKeyData) && ret(KeyRing.addKeyData)[0] == nil && argof(KeyRing.addKeyData)[1] == &key && sameslice(argof(KeyRing.addKeyData)[0].PrivateKey, otherKey.PrivateKey) && sameslice(argof(KeyRing.addKeyData)[0].SymmetricKey, otherKey.SymmetricKey) && sameslice(argof(KeyRing.addKeyData)[0].PublicKey, otherKey.PublicKey)
+//@   modifies nothing
 
 // Export modes: without ExportPrivateKeys no private or symmetric material is left in the exported item.
 //@ func (r *KeyRing) decryptKeyData(data *asn1.KeyData, seqnum int, mode keystoreV1.ExportMode) (err error)
@@ -248,6 +256,7 @@ package filesystem
 //@   ensures public-untouched: sameslice(data.PublicKey, old(data.PublicKey)) && data.Format == old(data.Format)
 //@   at call KeyRing.decryptPrivateKey : assert arg[0] == seqnum && sameslice(arg[1], old(data.PrivateKey))
 //@   at call KeyRing.decryptSymmetricKey : assert arg[0] == seqnum && sameslice(arg[1], old(data.SymmetricKey))
+//@   modifies data.PrivateKey, data.SymmetricKey
 
 //@ func (r *KeyRing) decryptAllKeyData(encrypted []asn1.KeyData, seqnum int, mode keystoreV1.ExportMode) (decrypted []asn1.KeyData, err error)
 //@   props C18
@@ -256,6 +265,7 @@ package filesystem
 //@   ensures whole-or-nothing: err != nil ==> decrypted == nil
 //@   ensures same-count: err == nil ==> len(decrypted) == len(encrypted) && fresh(decrypted)
 //@   loop 0 step each-item-own-seqnum: itercalled(KeyRing.decryptKeyData) && argof(KeyRing.decryptKeyData)[1] == seqnum && argof(KeyRing.decryptKeyData)[2] == mode
+//@   modifies bytes
 
 //@ func (r *KeyRing) exportASN1(mode keystoreV1.ExportMode) (exported asn1.KeyRing, err error)
 //@   props C18
@@ -336,3 +346,58 @@ package filesystem
 //@   ensures stale-view-rejected: ret(KeyRing.KeyWithSeqnum)[0] != nil && old(ret(KeyRing.KeyWithSeqnum)[0].State) != asn1.KeyState(tx.oldState) ==> err == errTxConcurrentModification && ret(KeyRing.KeyWithSeqnum)[0].State == old(ret(KeyRing.KeyWithSeqnum)[0].State)
 //@   ensures applied: err == nil ==> ret(KeyRing.KeyWithSeqnum)[0].State == asn1.KeyState(tx.newState) && old(ret(KeyRing.KeyWithSeqnum)[0].State) == asn1.KeyState(tx.oldState)
 //@   at call KeyRing.KeyWithSeqnum : assert recv == ring.data && arg[0] == tx.keySeqnum
+
+// ---- frames of the key-material helpers: they produce new byte strings and write nothing that existed before ----
+//@ func (s *KeyStore) keyStoreContext(context []byte) (c []byte)
+//@   props C02 C07 C18
+//@   safety
+//@   ensures fresh(c)
+//@   modifies nothing
+
+//@ func (s *KeyStore) encrypt(data []byte, ctx []byte) (out []byte, err error)
+//@   props C07 C18
+//@   at call KeyEncryptor.Encrypt : assert recv == s.encryptor && sameslice(arg[1], data)
+//@   modifies nothing
+
+//@ func (s *KeyStore) decrypt(data []byte, ctx []byte) (out []byte, err error)
+//@   props C07 C18
+//@   at call KeyEncryptor.Decrypt : assert recv == s.encryptor && sameslice(arg[1], data)
+//@   modifies nothing
+
+//@ func (r *KeyRing) encryptPrivateKey(seqnum int, data []byte) (out []byte, err error)
+//@   props C07 C18
+//@   at call KeyRing.encrypt : assert sameslice(arg[0], data)
+//@   modifies nothing
+
+//@ func (r *KeyRing) decryptPrivateKey(seqnum int, data []byte) (out []byte, err error)
+//@   props C07 C18
+//@   at call KeyRing.decrypt : assert sameslice(arg[0], data)
+//@   modifies nothing
+
+//@ func (r *KeyRing) encryptSymmetricKey(seqnum int, data []byte) (out []byte, err error)
+//@   props C07 C18
+//@   at call KeyRing.encrypt : assert sameslice(arg[0], data)
+//@   modifies nothing
+
+//@ func (r *KeyRing) decryptSymmetricKey(seqnum int, data []byte) (out []byte, err error)
+//@   props C07 C18
+//@   at call KeyRing.decrypt : assert sameslice(arg[0], data)
+//@   modifies nothing
+
+// Wiping helpers only change the contents of byte arrays.
+//@ func zeroizeKeyData(data []asn1.KeyData)
+//@   props C18
+//@   safety
+//@   modifies bytes
+
+//@ func zeroizeKeyRing(ring *asn1.KeyRing)
+//@   props C18
+//@   safety
+//@   noinline zeroizeKeyData
+//@   modifies bytes
+
+//@ func zeroizeKeyRings(rings []asn1.KeyRing)
+//@   props C18
+//@   safety
+//@   noinline zeroizeKeyRing
+//@   modifies bytes
